@@ -142,7 +142,11 @@ class _ServerInternalRunAdapter(BaseInternalRunAdapterDecorator):
                     )
 
                 envelope = EventEnvelopeWithMetadata.from_event(event)
-                await self._store.append_event(self.run_id, envelope)
+                # Same retry/backoff as the status writes: an append that fails
+                # propagates into the control loop and kills the run.
+                await self._runtime._retry_store_write(
+                    lambda: self._store.append_event(self.run_id, envelope)
+                )
 
             # Always forward to inner adapter (e.g. idle detection, DBOS stream)
             await super().write_to_event_stream(event)
